@@ -129,13 +129,12 @@ def visitRegLoop (ctx : Ctx) (r : Val) (acc : Used) (i : Int) : Nat → M Used
     let q ← resolveReg ctx r i
     visitRegLoop ctx r (addIdx acc q) (i + 1) n
 
-/-- `visit_Register`: `size = obj.resolve_size()` — WITHOUT the context — then every index.
-`range(size)` needs a real `int`: a `Constant` (let-sized fundamental register), a float or `None`
-raise `TypeError`. -/
+/-- `visit_Register`: `size = int(obj.resolve_size())` — WITHOUT the context — then every index.
+`int(...)` (`pyInt`): a let-sized fundamental register stores a `Constant`, whose `__int__` gives the value when it is a
+Python `int` (`JaqalError` otherwise); `None` raises `TypeError`. -/
 def visitRegister (ctx : Ctx) (r : Val) : M Used := do
-  match ← resolveSize [] r with
-  | .int k => visitRegLoop ctx r [] 0 k.toNat
-  | _ => .error (.other "TypeError")
+  let k ← pyInt (← resolveSize [] r)
+  visitRegLoop ctx r [] 0 k.toNat
 
 /-- `visit` of a gate argument (everything that is not a statement). -/
 def visitVal (ctx : Ctx) : Nat → Val → M Used
@@ -199,17 +198,27 @@ def usedKind : Kind → Bool
 /-- names of the parameters `GateDefinition.used_qubits` yields -/
 def usedParams (gd : GateDef) : List String := (gd.params.filter (fun p => usedKind p.2)).map (·.1)
 
+/-- `any(indices[reg] & used[reg] for reg in used)` -/
+def overlaps (indices used : Used) : Bool := used.any (fun kv => intersects (get indices kv.1) kv.2)
+
 /-- the loop of the non-macro branch of `visit_GateStatement` over `obj.used_qubits`
-(`self._parameters[param.name]` — `KeyError` when the statement lacks the argument). -/
-def visitUsedParams (ctx : Ctx) (args : List (String × Val)) (acc : Used) : List String → M Used
+(`self._parameters[param.name]` — `KeyError` when the statement lacks the argument):
+```
+used = self.visit(param, context)
+if self.validate_parallel and any(indices[reg] & used[reg] for reg in used):
+    raise JaqalError(f"Gate {obj.name} acting on the same qubit more than once.")
+self.merge_into(indices, used)
+``` -/
+def visitUsedParams (vp : Bool) (ctx : Ctx) (args : List (String × Val)) (acc : Used) : List String → M Used
   | [] => pure acc
   | p :: rest =>
     match args.lookup p with
     | none => .error (.other "KeyError")
     | some a => do
       let u ← visitVal ctx (valFuel ctx) a
+      if vp && overlaps acc u then .error (.jaqal "gate-same-qubit-twice") else
       let acc' ← mergeInto false acc u
-      visitUsedParams ctx args acc' rest
+      visitUsedParams vp ctx args acc' rest
 
 /-- the loop of `visit_BlockStatement`: `for n, sub_obj in …: self.merge_into(indices, self.visit(sub_obj, context), disjoint)` -/
 def foldBlock (visit : Stmt → M Used) (disjoint : Bool) (acc : Used) : List Stmt → M Used
@@ -219,9 +228,9 @@ def foldBlock (visit : Stmt → M Used) (disjoint : Bool) (acc : Used) : List St
     let acc' ← mergeInto disjoint acc u
     foldBlock visit disjoint acc' rest
 
-/-- `visit` of a statement. `vp` = the disjoint merge is in force for parallel blocks
+/-- `visit` of a statement. `vp` = `validate_parallel`: the disjoint merge is in force for parallel blocks
 (`DiscoverSubcircuits.visit_BlockStatement`: `disjoint=block.parallel`; equivalently the base class with
-`validate_parallel = True`). `allQ` = `self.all_qubits`. One unit of fuel per nesting level / macro expansion. -/
+`validate_parallel = True`) and a native gate whose own used-qubit arguments overlap is rejected. `allQ` = `self.all_qubits`. One unit of fuel per nesting level / macro expansion. -/
 def usedStmtF (vp : Bool) (allQ : Used) (macros : List Macro) : Nat → Ctx → Stmt → M Used
   | 0, _, _ => .error .hang
   | fuel+1, ctx, .gate name gd args =>
@@ -235,7 +244,7 @@ def usedStmtF (vp : Bool) (allQ : Used) (macros : List Macro) : Nat → Ctx → 
         usedStmtF vp allQ macros fuel (arguments ++ ctx) m.body
     | .busy => mergeInto false [] allQ
     | .idle => pure []
-    | .native => visitUsedParams ctx args [] (usedParams gd)
+    | .native => visitUsedParams vp ctx args [] (usedParams gd)
   | fuel+1, ctx, .block par _ _ body => foldBlock (usedStmtF vp allQ macros fuel ctx) (vp && par) [] body
   | fuel+1, ctx, .loop _ body => usedStmtF vp allQ macros fuel ctx body
 
